@@ -128,6 +128,135 @@ func pkgEmitCT(p *Pkg, qual bool) []byte {
 	return b.Bytes()
 }
 
+// pkgEmitCTOvr writes a content-types stream that gives every part its type by Override; only the relationship parts keep
+// their extension default.
+func pkgEmitCTOvr(p *Pkg, drop map[string]bool) []byte {
+	var b bytes.Buffer
+	b.WriteString(pkgXMLHead + `<Types xmlns="` + nsCT + `">`)
+	fmt.Fprintf(&b, `<Default Extension="rels" ContentType="%s"/>`, "application/vnd.openxmlformats-package.relationships+xml")
+	for _, n := range p.SortedNames() {
+		if n == "[Content_Types].xml" || strings.HasSuffix(n, ".rels") || strings.HasSuffix(n, "/") || drop[n] {
+			continue
+		}
+		if ct := p.ContentType(n); ct != "" {
+			fmt.Fprintf(&b, `<Override PartName="/%s" ContentType="%s"/>`, pkgAttr(n), pkgAttr(ct))
+		}
+	}
+	b.WriteString("</Types>")
+	return b.Bytes()
+}
+
+func pkgQName(n xml.Name) string {
+	if n.Space == "" {
+		return n.Local
+	}
+	return n.Space + ":" + n.Local
+}
+
+// pkgReserialise writes the same XML document with another serialiser: single-quoted attribute values (with > and " left
+// raw), character data in CDATA sections where it can be, > left raw in text, the two forms of an empty element swapped,
+// white space inside end tags, comments before and after the root's end tag.
+func pkgReserialise(b []byte, salt int) ([]byte, error) {
+	dec := xml.NewDecoder(bytes.NewReader(b))
+	dec.Strict = true
+	var out bytes.Buffer
+	var pending *xml.StartElement // start tag not yet closed with > or />
+	depth, n := 0, 0
+	flush := func() {
+		if pending != nil {
+			out.WriteString(">")
+			pending = nil
+		}
+	}
+	for {
+		tok, err := dec.RawToken()
+		if err == io.EOF {
+			break
+		}
+		if err != nil {
+			return nil, err
+		}
+		switch t := tok.(type) {
+		case xml.ProcInst:
+			flush()
+			if t.Target == "xml" {
+				out.WriteString("<?xml version='1.0' encoding='UTF-8' standalone='yes'?>")
+			} else {
+				fmt.Fprintf(&out, "<?%s %s?>", t.Target, t.Inst)
+			}
+		case xml.StartElement:
+			flush()
+			out.WriteString("<" + pkgQName(t.Name))
+			for _, a := range t.Attr {
+				out.WriteString("\n " + pkgQName(a.Name) + " = '")
+				for _, r := range a.Value {
+					switch r {
+					case '&':
+						out.WriteString("&amp;")
+					case '<':
+						out.WriteString("&lt;")
+					case '\'':
+						out.WriteString("&apos;")
+					case '\t', '\n', '\r':
+						fmt.Fprintf(&out, "&#%d;", r)
+					default:
+						out.WriteRune(r)
+					}
+				}
+				out.WriteString("'")
+			}
+			c := t.Copy()
+			pending = &c
+			depth++
+		case xml.EndElement:
+			depth--
+			n++
+			if pending != nil {
+				// an empty element: the other form than most producers of this tag choose, by turns
+				pending = nil
+				if (n+salt)%2 == 0 {
+					out.WriteString("/>")
+					break
+				}
+				out.WriteString(">")
+			}
+			if depth == 0 {
+				out.WriteString("<!-- end of " + pkgQName(t.Name) + " -->")
+			}
+			out.WriteString("</" + pkgQName(t.Name) + " >")
+		case xml.CharData:
+			flush()
+			txt := string(t)
+			if depth > 0 && strings.TrimSpace(txt) != "" && !strings.Contains(txt, "]]>") && !strings.Contains(txt, "\r") && (len(txt)+salt)%2 == 0 {
+				out.WriteString("<![CDATA[" + txt + "]]>")
+				break
+			}
+			for i, r := range txt {
+				switch {
+				case r == '&':
+					out.WriteString("&amp;")
+				case r == '<':
+					out.WriteString("&lt;")
+				case r == '>' && i >= 2 && txt[i-2:i] == "]]":
+					out.WriteString("&gt;")
+				case r == '\r':
+					out.WriteString("&#13;")
+				default:
+					out.WriteRune(r)
+				}
+			}
+		case xml.Comment:
+			flush()
+			out.WriteString("<!--" + string(t) + "-->")
+		case xml.Directive:
+			flush()
+			out.WriteString("<!" + string(t) + ">")
+		}
+	}
+	out.WriteString("\n<!-- written by another producer -->\n")
+	return out.Bytes(), nil
+}
+
 func pkgFreeRelID(rels []Rel, k int) string {
 	for n := 900 + k; ; n++ {
 		id := fmt.Sprintf("rId%d", n)
@@ -210,6 +339,51 @@ func pkgRespell(b []byte, sp string, salt int) ([]byte, error) {
 		}
 		if sp == "qual" {
 			set("[Content_Types].xml", pkgEmitCT(p, true))
+		}
+	case "ovr":
+		set("[Content_Types].xml", pkgEmitCTOvr(p, nil))
+	case "min":
+		// the least a producer must write: the optional parts nothing in the body refers to are absent (style definitions,
+		// document properties) and each part is typed by an Override
+		drop := map[string]bool{}
+		main := p.MainDocName()
+		docRels := RelsPartFor(main)
+		if p.RelsErr["_rels/.rels"] != "" || p.RelsErr[docRels] != "" {
+			return nil, fmt.Errorf("relationship part not readable")
+		}
+		keep := func(src string, rels []Rel) []Rel {
+			var out []Rel
+			for _, r := range rels {
+				if r.Mode != "External" && (r.Type == relStyles || strings.HasSuffix(r.Type, "/core-properties") || strings.HasSuffix(r.Type, "/extended-properties")) {
+					drop[ResolveTarget(src, r.Target)] = true
+					continue
+				}
+				out = append(out, r)
+			}
+			return out
+		}
+		pr, dr := keep("", p.Rels["_rels/.rels"]), keep(main, p.Rels[docRels])
+		set("_rels/.rels", pkgEmitRels("", pr, ""))
+		if _, ok := have[docRels]; ok {
+			set(docRels, pkgEmitRels(main, dr, ""))
+		}
+		set("[Content_Types].xml", pkgEmitCTOvr(p, drop))
+		var left []pkgEnt
+		for _, e := range ents {
+			if !drop[e.name] {
+				left = append(left, e)
+			}
+		}
+		ents = left
+	case "xmlser":
+		for k := range ents {
+			n := ents[k].name
+			if n == "[Content_Types].xml" || strings.HasSuffix(n, ".rels") || !p.IsXMLPart(n) {
+				continue
+			}
+			if rb, err := pkgReserialise(ents[k].data, salt+k); err == nil {
+				ents[k].data = rb
+			}
 		}
 	case "order":
 		sort.SliceStable(ents, func(i, j int) bool {
